@@ -250,7 +250,10 @@ class C05(PropBase):
                 g = Gen(rng, big=0.05)
                 r = rng.random()
                 mid = rng.choice([0, 1, 2, 3, 50])
-                if r < 0.4:
+                if r < 0.08:
+                    # an operation the library does not implement (abandon of its own / another id, delete, modify, ...)
+                    f["msg"] = policy.byz_raw_op(rng, mid)
+                elif r < 0.4:
                     f["msg"] = policy.byz_request(g, mid, rng.choice(["BindRequest", "SearchRequest", "ExtendedRequest", "UnbindRequest"]))
                 elif r < 0.9:
                     f["msg"] = policy.byz_response(g, mid, rng.choice(policy.RESPONSE_KINDS), notice=False)
